@@ -276,6 +276,34 @@ func c09DirentsOS(root, dir string) string {
 	if got != want {
 		return fmt.Sprintf("fail: listing %q through the wrapper (before and after the directory changed) gives %s; the source with the root prepended gives %s", dir, got, want)
 	}
+	// a file handle through the wrapper is the source's handle: every method answers what the source's answers, also
+	// after Close (a second Close, I/O and Stat on the closed handle)
+	life := func(open func() (afero.File, error)) string {
+		f, err := open()
+		if err != nil {
+			return "open:" + ErrClass(err)
+		}
+		var sb strings.Builder
+		n, err := f.Write([]byte("yz"))
+		fmt.Fprintf(&sb, "write %d %s;", n, ErrClass(err))
+		fmt.Fprintf(&sb, "close %s;", ErrClass(f.Close()))
+		fmt.Fprintf(&sb, "close %s;", ErrClass(f.Close()))
+		n, err = f.Write([]byte("q"))
+		fmt.Fprintf(&sb, "write %d %s;", n, ErrClass(err))
+		n, err = f.Read(make([]byte, 2))
+		fmt.Fprintf(&sb, "read %d %s;", n, ErrClass(err))
+		_, err = f.Stat()
+		fmt.Fprintf(&sb, "stat %s;", ErrClass(err))
+		_, err = f.Seek(0, 0)
+		fmt.Fprintf(&sb, "seek %s;", ErrClass(err))
+		fmt.Fprintf(&sb, "sync %s;trunc %s;close %s", ErrClass(f.Sync()), ErrClass(f.Truncate(0)), ErrClass(f.Close()))
+		return sb.String()
+	}
+	gl := life(func() (afero.File, error) { return b.OpenFile("d/same.txt", os.O_RDWR, 0) })
+	wl := life(func() (afero.File, error) { return afero.NewOsFs().OpenFile(filepath.Join(D, "d", "same.txt"), os.O_RDWR, 0) })
+	if gl != wl {
+		return fmt.Sprintf("fail: a file handle through the wrapper answers [%s]; the source's own handle answers [%s]", gl, wl)
+	}
 	return "ok"
 }
 
@@ -571,6 +599,9 @@ func c09Exhaustive(tier string) []corr.Case {
 				"stat " + h(sp), "lstat " + h(sp), "lstat " + h(dir), "lstat " + h(dir+"/nope"), "open " + h(sp), "h.read 1 16", "h.name 1", "open " + h(dir), "h.readdirnames 2 -1", "h.name 2",
 				"chmod " + h(sp) + " 384", "chtimes " + h(sp) + " 5", "chown " + h(sp) + " 1 1",
 				"openfile " + h(sp) + " 2 420", "h.writeat 3 5858 1", "h.name 3", "h.close 3",
+				// every flag word reaches the source as it is, also the odd ones without write access; a second Close is the source's second Close
+				"openfile " + h(sp) + " 128 420", "openfile " + h(sp) + " 1024 420", "h.read 4 16", "h.close 4", "openfile " + h(sp) + " 512 420", "h.read 5 16", "h.close 5", "stat " + h(sp),
+				"openfile " + h(sp) + " 1025 420", "h.write 6 5a", "h.close 6", "chtimes " + h(sp) + " 5", "h.close 6", "stat " + h(sp), "h.close 3", "h.close 0",
 				"rename " + h(sp) + " " + h(dir+"/g"), "stat " + h(dir+"/g"), "fullpath " + h(sp), "fullpath " + h(""),
 				"mkdir " + h(dir+"/m") + " 448", "remove " + h(dir+"/g"), "removeall " + h(dir), "stat " + h(dir), "snapshot"}
 			cases = append(cases, corr.Case{Lines: l})
